@@ -31,9 +31,9 @@ import (
 const simrtPath = "verif.local/sim/simrt"
 
 type report struct {
-	Files        int            `json:"files"`
-	Rewrites     map[string]int `json:"rewrites"`
-	Uncontrolled []string       `json:"uncontrolled"`
+	Files        int               `json:"files"`
+	Rewrites     map[string]int    `json:"rewrites"`
+	Uncontrolled []string          `json:"uncontrolled"`
 	Sites        map[string]string `json:"sites"`
 }
 
@@ -413,6 +413,13 @@ func (in *instr) run() bool {
 				}
 				return true
 			}
+			if full == "github.com/gofiber/utils/v2.StartTimeStampUpdater" && len(n.Args) == 0 {
+				// the updater goroutine itself is a stub of the harness (its coarse clock daemon); that the
+				// code asks for it is recorded, and utils.Timestamp() only moves once somebody has
+				in.site(n, "tsupdater")
+				n.Fun = rt("StartTimestampUpdater")
+				return true
+			}
 			if (full == "time.AfterFunc" || full == "context.AfterFunc") && len(n.Args) == 2 && in.on("chan") {
 				n.Args[1] = call("TimerFunc", n.Args[1], in.site(n, "timerfunc"))
 				return true
@@ -608,7 +615,8 @@ func (in *instr) run() bool {
 	}
 	in.file.Comments = keep
 	astutil.AddNamedImport(in.pkg.Fset, in.file, "simrt", simrtPath)
-	for _, p := range []string{"math/rand/v2", "math/rand"} {
+	// "sync", "time" and "context" may have lost their last use to a rewritten call (sync.OnceFunc, ...)
+	for _, p := range []string{"math/rand/v2", "math/rand", "sync", "context"} {
 		if !astutil.UsesImport(in.file, p) {
 			astutil.DeleteImport(in.pkg.Fset, in.file, p)
 		}
